@@ -434,8 +434,11 @@ type rent struct {
 
 type fakeRedis struct {
 	redis.Cmdable
-	data map[string]*rent
-	log  []string
+	data    map[string]*rent
+	log     []string
+	cursors map[uint64]string
+	ncur    uint64
+	foreign []string // keys of other users of the same database
 }
 
 func nowNs() int64 { return clock * int64(time.Second) }
@@ -548,17 +551,71 @@ func (f *fakeRedis) Del(ctx context.Context, keys ...string) *redis.IntCmd {
 	return c
 }
 
-func (f *fakeRedis) Scan(ctx context.Context, cursor uint64, match string, count int64) *redis.ScanCmd {
-	c := redis.NewScanCmd(ctx, func(ctx context.Context, cmd redis.Cmder) error { return nil })
-	var ks []string
-	pre := strings.TrimSuffix(match, "*")
+// Scan follows the documented SCAN contract: the keyspace (ALL keys, whatever the pattern) is walked in
+// steps of COUNT (default 10) slots, each call returns the matching keys of one step - possibly none -
+// and a cursor that is 0 only when the walk is complete; elements present during the whole walk are
+// returned at least once (the cursor remembers the last key visited, so deletions between calls do
+// not shift it).  The ScanCmd's process function serves the iterator's follow-up calls.
+func (f *fakeRedis) scanPage(cursor uint64, match string, count int64) ([]string, uint64) {
+	if count <= 0 {
+		count = 10
+	}
+	var all []string
 	for k := range f.data {
+		all = append(all, k)
+	}
+	sort.Strings(all)
+	after := ""
+	if cursor != 0 {
+		after = f.cursors[cursor]
+	}
+	var out []string
+	pre := strings.TrimSuffix(match, "*")
+	n := int64(0)
+	last := ""
+	more := false
+	for _, k := range all {
+		if cursor != 0 && k <= after {
+			continue
+		}
+		if n == count {
+			more = true
+			break
+		}
+		n++
+		last = k
 		if strings.HasPrefix(k, pre) && f.live(k) != nil {
-			ks = append(ks, k)
+			out = append(out, k)
 		}
 	}
-	sort.Strings(ks)
-	c.SetVal(ks, 0)
+	if !more {
+		return out, 0
+	}
+	f.ncur++
+	if f.cursors == nil {
+		f.cursors = map[uint64]string{}
+	}
+	f.cursors[f.ncur] = last
+	return out, f.ncur
+}
+
+func (f *fakeRedis) Scan(ctx context.Context, cursor uint64, match string, count int64) *redis.ScanCmd {
+	f.log = append(f.log, fmt.Sprintf("SCAN %d %s", cursor, match))
+	args := []interface{}{"scan", cursor, "match", match}
+	if count > 0 {
+		args = append(args, "count", count)
+	}
+	c := redis.NewScanCmd(ctx, func(ctx context.Context, cmd redis.Cmder) error {
+		sc := cmd.(*redis.ScanCmd)
+		a := sc.Args()
+		var cur uint64
+		fmt.Sscan(fmt.Sprint(a[1]), &cur)
+		ks, next := f.scanPage(cur, match, count)
+		sc.SetVal(ks, next)
+		return nil
+	}, args...)
+	ks, next := f.scanPage(cursor, match, count)
+	c.SetVal(ks, next)
 	return c
 }
 
@@ -648,6 +705,11 @@ func (s *duo) fakeProbe(k string) ([]byte, error) {
 
 func duoAfter(s *duo) string {
 	clock = 100 + s.ticks
+	for _, k := range s.fake.foreign {
+		if e := s.fake.data[k]; e == nil || string(e.val) != "foreign" {
+			return fmt.Sprintf("key %q of another user of the same redis database was removed or changed by the cache (commands %v)", k, tail(s.fake.log))
+		}
+	}
 	return ""
 }
 
@@ -667,7 +729,7 @@ func duoKey(s *duo) string {
 	clock = 100 + s.ticks
 	var ks []string
 	for k, e := range s.fake.data {
-		if s.fake.live(k) == nil {
+		if s.fake.live(k) == nil || !strings.HasPrefix(k, "p:") {
 			continue
 		}
 		d := "never"
@@ -719,6 +781,30 @@ func main() {
 			New: func() *duo {
 				clock = 100
 				f := &fakeRedis{data: map[string]*rent{}}
+				return &duo{mem: cache.NewTTLMemCache(1000, 3), rds: cache.NewTTLRdsCache(f, "p:", 3), fake: f}
+			}})
+	}})
+	jobs = append(jobs, job{"redis-agreement/shared-database", func() {
+		seq.Explore(r, &seq.Spec[*duo]{Name: "redis-agreement/shared-database/defaultTTL=3", Ops: duoOps(), Depth: r.Pick(6, 8), AtEnd: duoEnd, After: duoAfter, Key: duoKey, MaxViolations: 12,
+			Sig: func(path []string, msg string) string {
+				op := path[len(path)-1]
+				op = strings.NewReplacer("(a,", "(k,", "(b,", "(k,", "(a)", "(k)", "(b)", "(k)").Replace(op)
+				return op + ": in-memory and redis-backed caches disagree (database shared with other prefixes)"
+			},
+			New: func() *duo {
+				clock = 100
+				f := &fakeRedis{data: map[string]*rent{}}
+				// other users' keys: more than a SCAN step of them before, between and after the cache's own keys
+				for i := 0; i < 13; i++ {
+					for _, pre := range []string{"a:", "p:a", "p2:", "q:"} {
+						k := fmt.Sprintf("%s%02d", pre, i)
+						if pre == "p:a" {
+							k = fmt.Sprintf("p%02d:a", i) // sorts between "p2:" and "p:" neighbours, never matches "p:*"
+						}
+						f.data[k] = &rent{[]byte("foreign"), 0}
+						f.foreign = append(f.foreign, k)
+					}
+				}
 				return &duo{mem: cache.NewTTLMemCache(1000, 3), rds: cache.NewTTLRdsCache(f, "p:", 3), fake: f}
 			}})
 	}})
